@@ -163,7 +163,32 @@ class C01:
                                                ["run", "run", "check", "run"]])
             else:
                 hist = rnd.choice([["check"], ["check", "check"]])
-        return {"harness": "history", "class": cls, "world": w, "program": prog, "history": hist, "bad": bad}
+        sc = {"harness": "history", "class": cls, "world": w, "program": prog, "history": hist, "bad": bad}
+        if accept and "run" in hist and rnd.random() < 0.35:
+            # the checked configuration is also run on a brand-new machine object
+            hist.insert(rnd.randint(hist.index("run"), len(hist)), "run_fresh")
+        if accept and cls != "enum" and rnd.random() < 0.35:
+            # the same machine first checks (and maybe runs) ANOTHER pipeline: the same steps under the same names in
+            # another legal order
+            names_ = [n for n, _ in prog]
+            kinds_ = [programs.kind_of(n) for n in names_]
+            blocks = [[i for i, k in enumerate(kinds_) if k in programs.CV_KINDS],
+                      [i for i, k in enumerate(kinds_) if k in programs.DM_KINDS and k != "multiscale"]]
+            blocks = [b for b in blocks if len(b) >= 2]
+            if blocks:
+                b = rnd.choice(blocks)
+                perm = b[:]
+                for _ in range(5):
+                    rnd.shuffle(perm)
+                    if perm != b:
+                        break
+                if perm != b:
+                    prior = list(prog)
+                    for dst, src in zip(b, perm):
+                        prior[dst] = prog[src]
+                    sc["prior"] = copy.deepcopy(prior)
+                    sc["history"] = ["prior_check"] + (["prior_run"] if rnd.random() < 0.5 else []) + hist
+        return sc
 
     # -----------------------------------------------------------------------------------------------------------
     def execute(self, sc):
@@ -188,9 +213,36 @@ class C01:
         checked = None
         first = {}
         retired = False
+        fresh = None
         for opi, op in enumerate(sc["history"]):
             if retired:
                 break
+            if op in ("prior_check", "prior_run"):
+                pcfg = programs.to_cfg(sc["prior"])
+                if op == "prior_check":
+                    ok, out = runner.do_check(machine, pcfg, ds)
+                    if not ok:
+                        viol.append({"class": "C01.verdict", "sig": {"expected": "accept", "got": "reject",
+                                                                     **runner.exc_sig(out), "which": "prior"},
+                                     "op": opi, "names": [n for n, _ in sc["prior"]]})
+                        retired = True
+                    else:
+                        first["prior_cfg"] = out
+                else:
+                    ok, out = runner.do_run(machine, ds, copy.deepcopy(first["prior_cfg"]))
+                    if not ok:
+                        retired = True
+                rec.events.clear()
+                rec.calls.clear()
+                bump("prior_ops")
+                continue
+            run_machine, run_rec = machine, rec
+            if op == "run_fresh":
+                if checked is None:
+                    continue
+                fresh = runner.new_machine(snapshots=False)
+                run_machine, run_rec = fresh
+                bump("run_fresh_ops")
             if op == "check":
                 ok, out = runner.do_check(machine, user_cfg, ds)
                 bump("check_ops")
@@ -229,9 +281,9 @@ class C01:
             else:  # run
                 if checked is None:
                     continue
-                rec.events.clear()
-                rec.calls.clear()
-                ok, out = runner.do_run(machine, ds, copy.deepcopy(checked))
+                run_rec.events.clear()
+                run_rec.calls.clear()
+                ok, out = runner.do_run(run_machine, ds, copy.deepcopy(checked))
                 bump("run_ops")
                 if not ok:
                     from transitions import MachineError
@@ -239,32 +291,36 @@ class C01:
                     if isinstance(out, MachineError):
                         viol.append({"class": "C01.sequencing_error_in_run", "sig": runner.exc_sig(out),
                                      "names": names})
+                    elif op == "run_fresh" and "run" in first:
+                        # the same configuration ran on the machine that checked it and fails on a new machine
+                        viol.append({"class": "C01.run_fails_on_fresh_machine", "sig": runner.exc_sig(out),
+                                     "names": names})
                     else:
                         # not a sequencing error: counted, reported in the evidence, not a C01 violation (DESIGN §5 C01)
                         bump("non_sequencing_exceptions")
                         bump("non_sequencing:" + runner.exc_sig(out)["exception"] + "@" + runner.exc_sig(out)["where"])
-                    retired = True
+                    retired = retired or op != "run_fresh"
                     continue
-                nscales = machine.num_scales
+                nscales = run_machine.num_scales
                 bump("scales_gt1" if nscales > 1 else "scales_1")
                 # scale index from the event's 'scale' field (current_scale counts down to 0)
-                got = [((nscales - 1 - e["scale"]), e["name"]) for e in rec.events if e["phase"] == "run"]
+                got = [((nscales - 1 - e["scale"]), e["name"]) for e in run_rec.events if e["phase"] == "run"]
                 exp = expected_run_events(names, nscales)
                 if got != exp:
                     viol.append({"class": "C01.run_history", "sig": {"nscales": nscales}, "got": got, "expected": exp})
                 # sides: every event's plugin method called L (then R iff validation present)
                 sides_exp = ["L", "R"] if has_validation else ["L"]
-                for e in rec.events:
+                for e in run_rec.events:
                     if e["phase"] != "run":
                         continue
                     meth = PLUGIN_METHOD[e["kind"]]
-                    sides = [s for (seq, m, s) in rec.calls if seq == e["seq"] and m == meth]
+                    sides = [s for (seq, m, s) in run_rec.calls if seq == e["seq"] and m == meth]
                     if sides != sides_exp:
                         viol.append({"class": "C01.sides", "sig": {"kind": e["kind"], "got": sides,
                                                                    "expected": sides_exp}, "name": e["name"]})
                         break
                     if e["kind"] == "validation" and "interpolated_disparity" in dict(prog)[e["name"]]:
-                        isides = [s for (seq, m, s) in rec.calls if seq == e["seq"] and m == "interpolated_disparity"]
+                        isides = [s for (seq, m, s) in run_rec.calls if seq == e["seq"] and m == "interpolated_disparity"]
                         if isides != ["L", "R"]:
                             viol.append({"class": "C01.sides", "sig": {"kind": "interpolation", "got": isides}})
                 left, right = out
@@ -276,9 +332,9 @@ class C01:
                     viol.append({"class": "C01.repeat_run_differs",
                                  "sig": {"products": first["run"][0] != dig, "history": first["run"][1] != hist_dig}})
                 first.setdefault("run", (dig, hist_dig))
-                if machine.state != "begin" or len(machine.events) != 0:
+                if run_machine.state != "begin" or len(run_machine.events) != 0:
                     viol.append({"class": "C01.not_reset_after_run",
-                                 "sig": {"state": machine.state, "events": len(machine.events)}})
+                                 "sig": {"state": run_machine.state, "events": len(run_machine.events)}})
         edges = sorted({f"{a}>{b}" for a, b in zip(["begin"] + kinds, kinds)})
         return {
             "violations": viol,
@@ -294,6 +350,8 @@ class C01:
                 "multi_dot_suffix": int(any(n.count(".") > 1 for n in names)),
                 "second_checking_round": int(bool(machine.right_disp_map)),
                 "repeat_on_same_machine": int(len(sc["history"]) > 2),
+                "other_pipeline_checked_first_on_same_machine": int(bool(sc.get("prior"))),
+                "run_on_fresh_machine": int("run_fresh" in sc["history"]),
                 "multiscale_program_run": int("multiscale" in kinds and "run" in sc["history"] and model_accept),
                 **{"edge:" + e: 1 for e in edges},
             },
@@ -301,6 +359,14 @@ class C01:
 
     def simplify(self, sc):
         prog = sc["program"]
+        if sc.get("prior"):
+            c = copy.deepcopy(sc)
+            c.pop("prior")
+            c["history"] = [h for h in c["history"] if not h.startswith("prior_")]
+            yield c
+            sc = copy.deepcopy(sc)  # below: never drop a step from only one of the two programs
+            yield {**sc, "history": [h for h in sc["history"] if h != "prior_run"]}
+            return
         # drop a step
         for i in range(len(prog)):
             c = copy.deepcopy(sc)
